@@ -399,6 +399,24 @@ def gen_policy_scripts(work, mode, tier, seed, quick_n=1500):
     return r, scripts, len(qs)
 
 
+def gen_named_port_scripts(tier):
+    """Channels to ONE server name on different ports, one tunnel after the other on one gateway (both ports allowed): each
+    is connected to the port it asked for, whatever an earlier channel to that name used."""
+    scripts = []
+    n = 0
+    for sel, hosts in (("any", [["HL", ":", "PA"]]), ("unsigned", [["HL", ":", "PA"], ["HL", ":", "PB"]]), ("roundrobin", [["HL", ":", "PB"], ["HL", ":", "PA"]])):
+        for order in (("PA", "PB", "PA"), ("PB", "PA", "PB")):
+            for tr in ("ws", "legacy"):
+                cfg = {"tokenAuth": False, "smartCard": False, "auth": "ntlm", "users": "ntlm", "sel": sel, "hosts": hosts, "verifyIp": True, "idle": 0}
+                for k, port in enumerate(order):
+                    steps = [{"k": "hs", "cls": "valid", "caps": 0, "major": 1, "minor": k}, {"k": "create", "cls": "valid", "cookie": "none"}, {"k": "auth", "cls": "valid"},
+                             {"k": "chan", "cls": "valid", "name": ["HL"], "port": port}, {"k": "data", "cls": "valid", "n": 8}]
+                    scripts.append({"id": "np%03d-%d" % (n, k), "origin": "named-ports", "cfg": cfg, "transport": tr, "grp": "np-%d" % n,
+                                    "tun": {"user": "7", "hostName": ["HL"], "hostPort": port, "entry": hosts[0]}, "steps": steps})
+                n += 1
+    return scripts
+
+
 def gen_tokenauth_other_mechanism_scripts(tier, seed):
     """Cookie authentication switched on (the default) on a gateway whose HTTP front door is NTLM or basic, not OpenID:
     the tunnel request still needs an acceptable cookie (there is none to be had), and nothing follows without it."""
